@@ -16,9 +16,11 @@ import (
 	"math/big"
 	"os"
 	"path/filepath"
+	"runtime"
 	"sort"
 	"strconv"
 	"strings"
+	"sync"
 	"time"
 
 	"com.tuntun.rangers/node/src/common"
@@ -954,6 +956,255 @@ func dropEach(kind string, b []byte, depth int) [][]byte {
 	return out
 }
 
+// ---------------------------------------------------------------- retention (results must be values, not views)
+
+var keptKinds = []string{"t", "s", "h", "b", "g", "m"}
+var parseKindOf = map[string]string{"t": "tuc", "s": "suc", "h": "hu", "b": "buc", "g": "gu", "m": "mu"}
+var marshalName = map[string]string{"t": "MarshalTransaction", "s": "MarshalTransactions", "h": "MarshalBlockHeader", "b": "MarshalBlock",
+	"g": "MarshalGroup", "m": "MarshalMember"}
+
+// marshalKind marshals a fresh producible object of the kind and returns the slice the implementation returned (not a copy).
+func (g *gen) marshalKind(k string) []byte {
+	var b []byte
+	hx.Guard(func() string {
+		switch k {
+		case "t":
+			b, _ = types.MarshalTransaction(g.tx(true))
+		case "s":
+			b, _ = types.MarshalTransactions(g.txs(true))
+		case "h":
+			b, _ = types.MarshalBlockHeader(g.header(true))
+		case "b":
+			b, _ = types.MarshalBlock(&types.Block{Header: g.header(true), Transactions: g.txs(true)})
+		case "g":
+			b, _ = types.MarshalGroup(g.group(true))
+		case "m":
+			b, _ = types.MarshalMember(&types.Member{Id: g.r.Bytes(1 + g.r.Intn(40)), PubKey: g.r.Bytes(g.r.Intn(70))})
+		}
+		return ""
+	})
+	return b
+}
+
+// parseKeep parses and returns a closure rendering the kept object as tokens (nil when the parse failed).
+func parseKeep(k string, b []byte) func() string {
+	var f func() string
+	hx.Guard(func() string {
+		switch k {
+		case "t":
+			if t, err := types.UnMarshalTransaction(b); err == nil {
+				f = func() string { return tokTx(&t) }
+			}
+		case "s":
+			if ts, err := types.UnMarshalTransactions(b); err == nil {
+				f = func() string { return tokTxs(ts) }
+			}
+		case "h":
+			if h, err := types.UnMarshalBlockHeader(b); err == nil && h != nil {
+				f = func() string { return tokHeader(h) + " " + hx.Hex(h.GenHash().Bytes()) }
+			}
+		case "b":
+			if bl, err := types.UnMarshalBlock(b); err == nil && bl != nil && bl.Header != nil {
+				f = func() string { return tokHeader(bl.Header) + " " + tokTxs(bl.Transactions) }
+			}
+		case "g":
+			if gr, err := types.UnMarshalGroup(b); err == nil && gr != nil {
+				f = func() string { return tokGroup(gr) }
+			}
+		case "m":
+			if m, err := types.UnMarshalMember(b); err == nil && m != nil {
+				f = func() string { return tokOpt(m.Id) + " " + tokOpt(m.PubKey) }
+			}
+		}
+		return ""
+	})
+	return f
+}
+
+type keptBytes struct {
+	kind, snap string
+	b          []byte
+}
+
+type keptObj struct {
+	kind, snap string
+	in         []byte
+	tok        func() string
+}
+
+func retentionCorr(out *hx.Out, g *gen, rounds int) {
+	// A: marshal a batch keeping every returned slice, then read them all back
+	var ks []keptBytes
+	for r := 0; r < rounds; r++ {
+		for _, k := range keptKinds {
+			if b := g.marshalKind(k); b != nil {
+				ks = append(ks, keptBytes{k, hx.Hex(b), b})
+			}
+		}
+	}
+	for i := range ks {
+		k := ks[i]
+		out.Do("ret "+k.snap, func() string { return hx.Hex(k.b) })
+		doParse(out, parseKindOf[k.kind], k.b)
+	}
+	// B: parse a batch keeping every object, then read them all back, clobber the inputs, read again
+	var os []keptObj
+	for i := range ks {
+		in := append([]byte{}, ks[i].b...)
+		if f := parseKeep(ks[i].kind, in); f != nil {
+			os = append(os, keptObj{ks[i].kind, hx.Hex([]byte(f())), in, f})
+		}
+	}
+	for i := range os {
+		o := os[i]
+		out.Do("ret "+o.snap, func() string { return hx.Hex([]byte(o.tok())) })
+	}
+	for i := range os {
+		for j := range os[i].in {
+			os[i].in[j] ^= 0xff
+		}
+	}
+	for i := range os {
+		o := os[i]
+		out.Do("ret "+o.snap, func() string { return hx.Hex([]byte(o.tok())) })
+	}
+}
+
+func short(s string) string {
+	if len(s) > 160 {
+		return s[:160] + "…"
+	}
+	return s
+}
+
+func (s *searcher) retention(g *gen, rounds int) {
+	var ks []keptBytes
+	for r := 0; r < rounds; r++ {
+		for _, k := range keptKinds {
+			if b := g.marshalKind(k); b != nil {
+				ks = append(ks, keptBytes{k, hx.Hex(b), b})
+			}
+		}
+	}
+	for i, k := range ks {
+		s.evals++
+		if now := hx.Hex(k.b); now != k.snap {
+			later := ""
+			for _, l := range ks[i+1:] {
+				if l.kind == k.kind {
+					later = l.snap
+					break
+				}
+			}
+			s.add("retained-bytes-changed-"+marshalName[k.kind], "the slice returned by "+marshalName[k.kind]+" changed after later calls: "+short(k.snap)+" -> "+short(now),
+				map[string]string{"call": marshalName[k.kind] + "(A); " + marshalName[k.kind] + "(B); read A's bytes", "a_bytes_at_return": k.snap,
+					"a_bytes_after_b": now, "b_bytes": later, "observed": "A's bytes no longer parse to A"})
+		}
+	}
+	var os []keptObj
+	for i := range ks {
+		in, _ := hx.UnHex(ks[i].snap)
+		if f := parseKeep(ks[i].kind, in); f != nil {
+			os = append(os, keptObj{ks[i].kind, f(), in, f})
+		}
+	}
+	for _, o := range os {
+		s.evals++
+		if now := o.tok(); now != o.snap {
+			s.add("parsed-object-changed-"+o.kind, "an object returned by the "+o.kind+" parser changed after later parser calls: "+short(o.snap)+" -> "+short(now),
+				map[string]string{"call": "UnMarshal(A); UnMarshal(B); read A", "a_at_return": o.snap, "a_after": now, "observed": "changed"})
+		}
+	}
+	for i := range os {
+		for j := range os[i].in {
+			os[i].in[j] ^= 0xff
+		}
+	}
+	for _, o := range os {
+		s.evals++
+		if now := o.tok(); now != o.snap {
+			s.add("parsed-object-aliases-input-"+o.kind, "an object returned by the "+o.kind+" parser changed when the caller overwrote the input bytes: "+short(o.snap)+" -> "+short(now),
+				map[string]string{"call": "x = UnMarshal(b); overwrite b; read x", "before": o.snap, "after": now, "observed": "changed"})
+		}
+	}
+}
+
+// concurrent: N goroutines marshal and parse their own objects; every result must equal the one
+// obtained sequentially. Evidence about goroutine safety, not proof (schedules are not enumerated).
+func (s *searcher) concurrent(g *gen, workers, iters int) {
+	type job struct {
+		kind string
+		mk   func() []byte
+		ref  string
+		tok  string
+	}
+	jobs := make([][]job, workers)
+	for w := 0; w < workers; w++ {
+		for i := 0; i < 6; i++ {
+			k := keptKinds[(w+i)%len(keptKinds)]
+			var mk func() []byte
+			switch k {
+			case "t":
+				o := g.tx(true)
+				mk = func() []byte { b, _ := types.MarshalTransaction(o); return b }
+			case "s":
+				o := g.txs(true)
+				mk = func() []byte { b, _ := types.MarshalTransactions(o); return b }
+			case "h":
+				o := g.header(true)
+				mk = func() []byte { b, _ := types.MarshalBlockHeader(o); return b }
+			case "b":
+				o := &types.Block{Header: g.header(true), Transactions: g.txs(true)}
+				mk = func() []byte { b, _ := types.MarshalBlock(o); return b }
+			case "g":
+				o := g.group(true)
+				mk = func() []byte { b, _ := types.MarshalGroup(o); return b }
+			case "m":
+				o := &types.Member{Id: g.r.Bytes(20), PubKey: g.r.Bytes(64)}
+				mk = func() []byte { b, _ := types.MarshalMember(o); return b }
+			}
+			ref := append([]byte{}, mk()...)
+			tok := ""
+			if f := parseKeep(k, ref); f != nil {
+				tok = f()
+			}
+			jobs[w] = append(jobs[w], job{k, mk, hx.Hex(ref), tok})
+		}
+	}
+	var mu sync.Mutex
+	var wg sync.WaitGroup
+	for w := 0; w < workers; w++ {
+		wg.Add(1)
+		go func(js []job) {
+			defer wg.Done()
+			for it := 0; it < iters; it++ {
+				for _, j := range js {
+					res := hx.Guard(func() string {
+						b := j.mk()
+						runtime.Gosched()
+						if hx.Hex(b) != j.ref {
+							return "bytes " + short(j.ref) + " -> " + short(hx.Hex(b))
+						}
+						if f := parseKeep(j.kind, b); f == nil || f() != j.tok {
+							return "parse"
+						}
+						return "same"
+					})
+					if res != "same" {
+						mu.Lock()
+						s.add("concurrent-"+marshalName[j.kind]+"-"+strings.SplitN(res, " ", 2)[0],
+							marshalName[j.kind]+" / its parser gives a different result when other goroutines run the codecs: "+res,
+							map[string]string{"call": "N goroutines: " + marshalName[j.kind] + "(x); compare with the sequential result", "sequential": j.ref, "observed": res})
+						mu.Unlock()
+					}
+				}
+			}
+		}(jobs[w])
+	}
+	wg.Wait()
+	s.evals += workers * iters * 6
+}
+
 // ---------------------------------------------------------------- corpus
 
 func runCorpus(o *hx.Out) int {
@@ -1141,6 +1392,8 @@ func corr(a map[string]string) {
 			}
 		}
 	}
+	// retention: results are values (no shared buffer behind returned bytes, no aliasing of parser input)
+	retentionCorr(out, g, 6*scale)
 	// malformed stream
 	for i := 0; i < 1500*scale; i++ {
 		k := []string{"h", "t", "s", "b", "g", "h", "t", "b", "g", "m", "G"}[g.r.Intn(11)]
@@ -1553,7 +1806,10 @@ func search(a map[string]string) {
 			s.checkParse(k, []byte{byte(x)})
 		}
 	}
+	s.retention(g, 8)
 	s.run(g, hx.ArgInt(a, "n", 300))
+	s.retention(g, 8)
+	s.concurrent(g, 8, 40)
 	f, err := os.Create(a["out"])
 	if err != nil {
 		panic(err)
